@@ -17,9 +17,9 @@ EXPLANATION = (
     "valuations of (vendor given, vendor equal, conformsTo given, stored conformsTo present, conformsTo equal) keeps exactly when "
     "(!vg | ve) & (!cg | (cp & ce)). C19.5: the single-result form over len in {0,1,2} gives {Nonexistent, first, Ambiguous}. C19.6: "
     "add_type = add_assertion('isA', t); types = objects_for_predicate('isA'); has_type = any(digest(x) == digest(envelope(t))); "
-    "check_type Ok iff has_type. C19.9: the Attachments container - add stores new_attachment(..) under its digest, add_to_envelope is the fold of add_assertion_envelope over every stored attachment onto the accumulated envelope, try_from_envelope stores every attachment of the envelope. C19.10: attachments() = attachments_with_vendor_and_conforms_to(self, None, None). Does not decide string/ARID value round-trips.")
+    "check_type Ok iff has_type. C19.9: the Attachments container - add stores new_attachment(..) under its digest, add_to_envelope is the fold of add_assertion_envelope over every stored attachment onto the accumulated envelope, try_from_envelope stores every attachment of the envelope. C19.11: the Envelope-level attachment accessors read case(self).Assertion. C19.10: attachments() = attachments_with_vendor_and_conforms_to(self, None, None). Does not decide string/ARID value round-trips.")
 TRUSTED = ['String PartialEq compares text']
-FLOORS = {'C19.1': 4, 'C19.2': 1, 'C19.3': 1, 'C19.4': 1, 'C19.5': 1, 'C19.6': 4, 'C19.9': 3, 'C19.10': 1}
+FLOORS = {'C19.1': 4, 'C19.2': 1, 'C19.3': 1, 'C19.4': 1, 'C19.5': 1, 'C19.6': 4, 'C19.9': 3, 'C19.10': 1, 'C19.11': 4}
 P1, P2, P3 = ('param', 1), ('param', 2), ('param', 3)
 
 
@@ -312,6 +312,7 @@ def check(ctx):
     errflow.check(ctx, 'C19.8', ['src/extension/attachment/attachment_impl.rs', 'src/extension/attachment/attachments.rs', 'src/extension/types.rs'], 'attachment / type family')
     check_container(ctx)
     check_unfiltered(ctx)
+    check_accessor_dispatch(ctx)
 
 
 def check_unfiltered(ctx):
@@ -341,6 +342,36 @@ def check_unfiltered(ctx):
         else:
             ctx.fail('C19.10', ctx.site(b, bi, si), 'attachments() returns %s, not the validating query with no filter: malformed attachment assertions are not reported' % fmt(v)[:200],
                      key='C19.10|attachments')
+
+
+def check_accessor_dispatch(ctx):
+    """C19.11: the Envelope-level attachment accessors (payload, vendor, conformsTo, validate) judge the envelope ITSELF: they dispatch on
+    case(self) and hand case(self).Assertion to the Assertion-level function; any other case is InvalidAttachment. Looking through
+    subject(self) would accept a decorated attachment assertion (one carrying assertions of its own), which validation must report."""
+    F = ctx.F
+    P1 = ('param', 1)
+    for name in ('attachment_payload', 'attachment_vendor', 'attachment_conforms_to', 'validate_attachment'):
+        b = F.method1('Envelope', name)
+        if b is None:
+            ctx.lost('C19.11', 'Envelope::' + name)
+            continue
+        tb = TermBuilder(F, b)
+        calls = []
+        for bi, c, t in b.calls():
+            if c is not None and c.name == name and (c.self_ty or c.raw.get('impl_self') or '').endswith('Assertion'):
+                calls.append((bi, strip_sites(detry(tb.call_args(bi)[0]))))
+        good = bool(calls)
+        for bi, a in calls:
+            x = a
+            while x[0] == 'call' and call_name(x) in ('clone', 'deref', 'borrow', 'as_ref') and len(x[2]) == 1:
+                x = strip_sites(detry(x[2][0]))
+            c_ = m_call(x[1], name='case', self_suffix='Envelope') if x[0] == 'vfield' and x[2:] == ('Assertion', '0') else None
+            good &= c_ is not None and strip_sites(c_[0]) == P1
+        if good:
+            ctx.ok('C19.11', ctx.site(b), '%s reads case(self).Assertion (the envelope itself must be the attachment assertion)' % name)
+        else:
+            ctx.fail('C19.11', ctx.site(b), '%s does not read the Assertion of case(self): %s' % (name, [fmt(a)[:120] for _bi, a in calls] or 'no Assertion-level call'),
+                     key='C19.11|' + name)
 
 
 def check_container(ctx):
